@@ -100,6 +100,16 @@ class Mode:
             chars.append(["a", "\u00e9", "\u20ac", "\U0001d11e"][k])
         return "".join(chars)
 
+    def choice(self, name, lo, hi):
+        """a concrete int in [lo, hi]; the engine forks over every value"""
+        v = self.int(name, lo, hi)
+        if self.sym:
+            return core.concretize(v)
+        return v
+
+    def byte(self, name):
+        return self.int(name, 0, 255)
+
     def assume(self, cond):
         if self.sym:
             core.cur().assume(Z(cond))
